@@ -1,4 +1,6 @@
 """C16 Globs match as documented and directory pruning is conservative (shape I, engine E3)."""
+import os
+
 from .. import common as C
 from .. import unitcheck as U
 
@@ -48,12 +50,61 @@ def cases(tier, seed):
     # two --path patterns at once
     out += [{"pairs": True, "tokens": 2, "pathlen": 3 if tier == "quick" else 4, "shard": "%d/%d" % (i, 32)} for i in range(32)]
     # command-line cross-check: --name / --path / --exclude x -i on the real binary over a fixed tree
+    # the pattern options of the dedupe commands (--path / --keep-path / --name / --keep-name), with the command started
+    # from several working directories: patterns that begin with '/' or '**' mean the same everywhere
+    for opt in ("--keep-path", "--path", "--keep-name", "--name"):
+        for cwd in ("tree", "tree/r", "elsewhere", "/"):
+            out.append({"dedupe_cli": True, "opt": opt, "cwd": cwd})
     n = 32 if tier == "quick" else 256
     out += [{"cli": True, "tokens": 2 if tier == "quick" else 3, "shard": "%d/%d" % (i, n)} for i in range(n)]
     return out
 
 
+DEDUPE_FILES = ["r/a/f", "r/b/f", "r/sub/a/g", "r/sub/b/g", "r/top", "r/a/b/h"]
+DEDUPE_PATH_GLOBS = ["**/a/*", "**/b/*", "@TREE@/r/a/*", "@TREE@/r/*/a/?", "**/sub/**", "**/{a,b}/?", "@TREE@/**", "**/[ab]/f", "**"]
+DEDUPE_NAME_GLOBS = ["f", "?", "[fg]", "{f,top}", "t*", "*"]
+
+
+def evaluate_dedupe_cli(case):
+    import re
+    from .. import dedupelab as D
+    from . import c09
+    viol = []
+    runs = 0
+    with C.Scratch() as sc:
+        C.make_tree(sc.tree, [{"p": p, "k": "file", "c": ["lit", "one content for all of them"]} for p in DEDUPE_FILES])
+        report = D.make_report(sc, [], ["r"])
+        order = [C.u(p) for p in D.report_groups(report).groups[0]["paths"]]
+        cwd = {"tree": sc.tree, "tree/r": os.path.join(sc.tree, "r"), "elsewhere": os.path.join(sc.root, "elsewhere"), "/": "/"}[case["cwd"]]
+        os.makedirs(cwd, exist_ok=True)
+        is_name = case["opt"].endswith("name")
+        keep = case["opt"].startswith("--keep")
+        for g in (DEDUPE_NAME_GLOBS if is_name else DEDUPE_PATH_GLOBS):
+            pat = g.replace("@TREE@", sc.tree)
+            rx = re.compile(c09.glob_to_re(pat))
+            hit = [bool(rx.fullmatch(os.path.basename(p) if is_name else p)) for p in order]
+            retained = [p for p, h in zip(order, hit) if (h if keep else not h)]
+            cand = [p for p in order if p not in retained]
+            if not retained:
+                retained, cand = cand[:1], cand[1:]
+            r = D.run_dedupe(sc, "remove", [case["opt"], pat], report, dry_run=True, cwd=cwd)
+            runs += 1
+            feat = {"kind": "dedupe_pattern_differs", "option": case["opt"], "working_directory": case["cwd"],
+                    "pattern_begins_with": "**" if pat.startswith("**") else ("/" if pat.startswith("/") else "other")}
+            if r["rc"] != 0:
+                viol.append(dict(feat, kind="dedupe_pattern_rejected", detail="remove %s %r from %s: %s" % (case["opt"], pat, cwd, r["err"][-200:])))
+                continue
+            got = sorted(C.u(o["file"]) for o in D.parse_script(r["out"]))
+            if got != sorted(cand):
+                viol.append(dict(feat, detail="`remove --dry-run %s %s` started in %s drops %s, the documented glob semantics give %s (report order %s)" % (
+                    case["opt"], pat, cwd, [x[len(sc.tree):] for x in got], [x[len(sc.tree):] for x in sorted(cand)], [x[len(sc.tree):] for x in order])))
+    return {"violations": viol, "evaluations": runs, "counters": {"dedupe_cli_runs": runs},
+            "outcome": "dedupe_cli_ok" if not viol else "dedupe_cli_violations", "sample": {"case": case}}
+
+
 def evaluate(case):
+    if case.get("dedupe_cli"):
+        return evaluate_dedupe_cli(case)
     if case.get("cli"):
         with C.Scratch() as sc:
             args = ["glob", "--cli", "--fclones", C.FCLONES, "--tree", sc.tree, "--tokens", str(case["tokens"])]
